@@ -4,6 +4,7 @@ import (
 	"bytes"
 	"encoding/json"
 	"fmt"
+	"math"
 	"strconv"
 
 	"github.com/jrhy/mast"
@@ -107,12 +108,7 @@ func (k *Key) Order(o2 mast.Key) int {
 			return 0
 		}
 		if v2.Type == v1proto.Type_REAL {
-			if float64(v.Int) < v2.Real {
-				return order(flip, -1)
-			} else if float64(v.Int) > v2.Real {
-				return order(flip, 1)
-			}
-			return 0
+			return order(flip, compareIntReal(v.Int, v2.Real))
 		}
 		return order(flip, -1)
 	}
@@ -145,6 +141,30 @@ func (k *Key) Order(o2 mast.Key) int {
 	}
 	panic(fmt.Errorf("key comparison %T, %T in unexpected order",
 		k.Value(), k2.Value()))
+}
+
+// compareIntReal compares exactly, like SQLite does: converting the integer to
+// float64 would make distinct values beyond 2^53 compare equal.
+func compareIntReal(i int64, r float64) int {
+	if r < -9223372036854775808.0 {
+		return 1
+	}
+	if r >= 9223372036854775808.0 {
+		return -1
+	}
+	t := math.Trunc(r)
+	if y := int64(t); i < y {
+		return -1
+	} else if i > y {
+		return 1
+	}
+	// i equals the integer part of r; the fraction decides
+	if t < r {
+		return -1
+	} else if t > r {
+		return 1
+	}
+	return 0
 }
 
 func orderType(v, v2 *v1proto.SQLiteValue) (*v1proto.SQLiteValue, *v1proto.SQLiteValue, bool) {
